@@ -3,6 +3,7 @@ package main
 import (
 	"fmt"
 	"math/big"
+	"strconv"
 	"strings"
 	"sync/atomic"
 	"time"
@@ -250,6 +251,56 @@ func checkC06(r *kit.Run) {
 			}
 		}
 	}
+	// ---- comparison of strings and bytes ----
+	_, sts = run("strcmp")
+	renderStr := func(v tlaval.Value) string {
+		rec := tlaval.AsRec(v)
+		bs := tlaval.IntSeq(rec["bytes"])
+		if tlaval.AsStr(rec["k"]) == "bytes" {
+			var b strings.Builder
+			b.WriteString("'")
+			for _, x := range bs {
+				fmt.Fprintf(&b, "\\x%02x", x)
+			}
+			b.WriteString("'")
+			return b.String()
+		}
+		raw := make([]byte, len(bs))
+		for i, x := range bs {
+			raw[i] = byte(x)
+		}
+		return strconv.Quote(string(raw))
+	}
+	for i, st := range sts {
+		op := tlaval.AsStr(st["op"])
+		expr := fmt.Sprintf("%s %s %s", renderStr(st["a"]), op, renderStr(st["b"]))
+		total++
+		wantErr := tlaval.AsBool(st["err"])
+		resv := tlaval.IntSeq(st["res"])
+		v := ctx.CompileString("x: " + expr).LookupPath(cue.ParsePath("x"))
+		if i%200 == 0 {
+			ctx = cuecontext.New()
+		}
+		if wantErr {
+			if v.Err() == nil {
+				r.Violation("strcmp "+expr, fmt.Sprintf("%s evaluates to %v, a string and a bytes value do not compare", expr, v), map[string]any{"expr": expr})
+			}
+			continue
+		}
+		nontrivial++
+		got, err := v.Bool()
+		if err != nil || got != (resv[0] == 1) {
+			r.Violation("strcmp "+expr, fmt.Sprintf("%s = %v (%v), comparison of the byte sequences gives %v", expr, v, err, resv[0] == 1), map[string]any{"expr": expr})
+		}
+		// the same as a bound: a & <b  must succeed exactly when a < b
+		if op != "==" && tlaval.AsStr(tlaval.AsRec(st["a"])["k"]) == tlaval.AsStr(tlaval.AsRec(st["b"])["k"]) {
+			bexpr := fmt.Sprintf("%s & %s%s", renderStr(st["a"]), op, renderStr(st["b"]))
+			bv := ctx.CompileString("x: " + bexpr).LookupPath(cue.ParsePath("x"))
+			if (bv.Err() == nil) != (resv[0] == 1) {
+				r.Violation("strbound "+bexpr, fmt.Sprintf("%s: error=%v, comparison of the byte sequences gives %v", bexpr, bv.Err(), resv[0] == 1), map[string]any{"expr": bexpr})
+			}
+		}
+	}
 	// ---- integer division on a shared operand ----
 	_, sts = run("shared")
 	bs2 := append(bs, new(big.Int).Lsh(big.NewInt(1), 127), new(big.Int).Exp(big.NewInt(10), big.NewInt(40), nil), big.NewInt(1000))
@@ -393,5 +444,5 @@ func checkC06(r *kit.Run) {
 	r.Set("distinct_nontrivial", nontrivial)
 	r.Set("canaries_rejected", int(caught))
 	r.Set("exhaustive", true)
-	r.Set("rule", "every state of CueArith.tla: (operator, operand pair) over 24 small numbers with the model's kind / error / exact fraction; (B+i) op (B+j) for i, j in -2..2 instantiated at +-2^63, +-2^64, +-10^34, +-10^400; every sequence of three integer divisions on one shared operand +-(B+i) (also B = 2^127, 10^40, 1000) by -7, -2, 3, 7; every structural literal spelling; non-trivial = cases that are not required errors")
+	r.Set("rule", "every state of CueArith.tla: (operator, operand pair) over 24 small numbers with the model's kind / error / exact fraction; (B+i) op (B+j) for i, j in -2..2 instantiated at +-2^63, +-2^64, +-10^34, +-10^400; every comparison (also as a bound) between 18 string / bytes values incl. invalid UTF-8 bytes; every sequence of three integer divisions on one shared operand +-(B+i) (also B = 2^127, 10^40, 1000) by -7, -2, 3, 7; every structural literal spelling; non-trivial = cases that are not required errors")
 }
